@@ -374,7 +374,8 @@ class Engine:
         """
         # TODO: Maybe a property setter like input_values.
         values = tuple(output_variable.value for output_variable in self.output_variables)
-        result = np.column_stack(values) if values else np.array(values)
+        # output values that do not depend on the input values (eg, from disabled rule blocks) are single values
+        result = np.column_stack(np.broadcast_arrays(*values)) if values else np.array(values)
         return result
 
     @property
